@@ -137,29 +137,29 @@ func (t *HashTrie) contains(word string) bool {
 	return false
 }
 
+// 从`node`的子树中删除单词`word[depth:]`，返回单词是否存在（只做精确匹配，不使用通配符）
 func (t *HashTrie) remove(node *trieNode, word []rune, depth int) bool {
-	if node == nil {
+	if depth == len(word) {
+		if !node.isEnd {
+			return false
+		}
+		node.isEnd = false
+		return true
+	}
+	child, found := node.children[word[depth]]
+	if !found || !t.remove(child, word, depth+1) {
 		return false
 	}
-	if depth == len(word) {
-		if node.isEnd {
-			node.isEnd = false
-			return len(node.children) > 0 // 是否还有其它单词的路径
-		}
-	} else {
-		node = node.children[word[depth]]
-		if t.remove(node, word, depth+1) {
-			delete(node.children, word[depth])
-			return !node.isEnd && len(node.children) > 0
-		}
+	// 没有其它单词经过的子节点从父节点中删除
+	if !child.isEnd && len(child.children) == 0 {
+		delete(node.children, word[depth])
 	}
-	return false
+	return true
 }
 
 // 从单词表中删除一个单词
 func (t *HashTrie) Remove(word string) bool {
-	if t.contains(word) {
-		t.remove(&t.root, []rune(word), 0)
+	if t.remove(&t.root, []rune(word), 0) {
 		t.size--
 		return true
 	}
